@@ -336,6 +336,8 @@ class Reach(Checker):
     """Counts abstract states and rare conditions from the public side (no trace)."""
 
     def after(self, w, op, ev):
+        if op['op'] == 'NEW' and ev['r'] == 'ok':
+            w.cover.add('type:' + op['c']['name'])
         if 'p' in op:
             node = w.node(op['p'])
             if node is not None:
@@ -703,9 +705,8 @@ class C04Attributes(Checker):
                 return
             st, sn = self._status(node.name, op['name'], val)
             w.count('c04.sets_judged.' + st)
-            w.c04_pairs = getattr(w, 'c04_pairs', set())
             if sn:
-                w.c04_pairs.add((node.name, sn))
+                w.cover.add('pair:%s@%s' % (node.name, sn))
             if ev['r'] == 'ok':
                 if st == 'undeclared':
                     w.violate('C04', 'undeclared-accepted', {'elem': node.name, 'attr': op['name']})
@@ -734,6 +735,22 @@ class C04Attributes(Checker):
                 elif ev['r'] == 'exc' and len(cs['attrs']) == 1 and st == 'valid':
                     w.violate('C04', 'declared-valid-rejected', {'elem': cs['name'], 'attr': sn, 'value': val,
                                                                  'exc': ev['t'], 'via': 'ctor'})
+        elif k == 'PARSE' and op.get('c04'):
+            t = op['c04']
+            st, sn = self._status(t['elem'], spec.py_attr_name(t['attr']) if t['declared'] else t['attr'], t['value'])
+            if not t['declared']:
+                st = 'undeclared'
+            w.count('c04.parser_judged.' + st)
+            if sn:
+                w.cover.add('pair:%s@%s' % (t['elem'], sn))
+            if ev['r'] == 'ok':
+                if st == 'undeclared':
+                    w.violate('C04', 'undeclared-accepted', {'elem': t['elem'], 'attr': t['attr'], 'via': 'parser'})
+                elif st == 'invalid':
+                    w.violate('C04', 'invalid-accepted', {'elem': t['elem'], 'attr': t['attr'], 'value': t['value'], 'via': 'parser'})
+            elif ev['r'] == 'exc' and st == 'valid':
+                w.violate('C04', 'declared-valid-rejected', {'elem': t['elem'], 'attr': t['attr'], 'value': t['value'],
+                                                             'exc': ev['t'], 'via': 'parser'})
         elif k == 'TO_STRING':
             node = w.node(op['p'])
             if node is None or not node.xsd_check:
